@@ -308,6 +308,21 @@ def run(tier, seed):
         if not same:
             kdis.append({"config": text, "lines": lines, "impl_obs": [str(x) for x in a_][:12], "model_obs": [str(x) for x in b_][:12]})
         rep.sample({"config": text, "lines": lines[:6], "csv": {k: [str(x) for x in v[:4]] for k, v in csv.items()}}, cap=2)
+    # ---- E-C08: the spotlight manager on the real binary: each actor's lines are attributed to that actor ----
+    from . import e2e
+    nact = 3
+    etext = ("role meter\n  :wait sleep 0.4\n  spotlight echo \"v=$((i+1))\"; echo \"v=$((i+11))\" >&2; sleep 30\n"
+             "  signal v scalar at (?P<ts_now>)v=(?P<scalar>\\d+)$\nend\ncast\n  m* play %d meter\nend\nscript\n  tempo 100ms\n"
+             "  scene w entails for m1: wait\n  storyline w\nend\naudience\n  obs watches every meter v\nend\n" % nact)
+    eplays = [e2e.Play(etext, timeout=30) for _ in range(2 if tier == "quick" else 6)]
+    for er in e2e.run_many(eplays, workers=4):
+        rep.count("e2e-spotlight-plays")
+        for k in range(nact):
+            fn = "obs.m%d.v.csv" % (k + 1)
+            vals = sorted(float(l.split()[1]) for l in er["csv"].get(fn, "").splitlines() if len(l.split()) >= 2)
+            if vals != [float(k + 1), float(k + 11)]:
+                ofail.append({"config": etext, "lines": [], "file": fn, "real_rows": [str(v) for v in vals], "expected_points": [str(float(k + 1)), str(float(k + 11))],
+                              "tag": {"kind": "attribution"}})
     rep.obligation("K-C08: detectSignals + audit loop vs model on the forwarded observations (%d cases)" % len(cases), "K", not kdis, json.dumps(kdis[:2])[:1800])
     rep.obligation("O-C08: every CSV file holds exactly the points its lines denote (pointsOf) (real collector)", "O", not ofail, json.dumps(ofail[:2])[:1800])
     if ofail:
